@@ -113,7 +113,7 @@ package httpcache
 //@   requires refs == indexRead || len(refs) == 0                          # name: refs-is-the-index-read-in-this-exchange   props: C08
 //@   assigns *
 //@   ensures result0 == old(stored.Data) && result1 == nil                         # name: returns-stored
-//@   ensures lastVerdictStale == old(lastVerdictStale)                             # name: no-new-freshness-verdict   props: C09
+//@   ensures lastVerdictStale == old(lastVerdictStale) && indexRead == old(indexRead) && lastLoaded == old(lastLoaded)    # name: no-new-freshness-verdict   props: C09
 //@   ensures goroutinesSpawned == old(goroutinesSpawned) + 1                       # name: exactly-one-background-revalidation   props: C20
 //@   ensures lastCondEtag == old(hget(stored.Data.Header, "Etag")) && lastCondLM == old(hget(stored.Data.Header, "Last-Modified"))   # name: background-request-built-from-the-stored-validators   props: C20
 //@   ensures upstreamCalls == old(upstreamCalls)                                    # name: no-upstream-in-foreground
@@ -160,13 +160,14 @@ package httpcache
 //@   ensures result0 != nil && upstreamCalls != old(upstreamCalls) ==> (result0 == old(stored.Data) && (statusIs(result0.Header, "REVALIDATED", true) || statusIs(result0.Header, "STALE", true))) || (result0 != old(stored.Data) && (cstatus(result0.Header) == "MISS" || cstatus(result0.Header) == "BYPASS") && len(get(result0.Header, "X-Httpcache-Status")) == 1 && !has(result0.Header, "X-From-Cache"))   # name: validated-reply-marked   props: C11
 //@   ensures (result0 != nil) != (result1 != nil)                                        # name: result-shape   props: C10
 //@   ensures upstreamCalls != old(upstreamCalls) ==> validatedWithRealAge                # name: validation-judged-by-the-real-age   props: C11 C13 C02
+//@   ensures indexRead == old(indexRead) && lastLoaded == old(lastLoaded)                # name: no-further-store-reads   props: C09
 //@   ensures goroutinesSpawned == old(goroutinesSpawned) || (goroutinesSpawned == old(goroutinesSpawned) + 1 && upstreamCalls == old(upstreamCalls) && result0 == old(stored.Data))   # name: at-most-one-background-revalidation-and-then-answers-at-once   props: C20
 //@   ensures tq == "" && !unqualNoCacheA(hs, vs) && !lastVerdictStale ==> served && statusIs(result0.Header, "HIT", true)   # name: fresh-matching-response-is-served-from-the-store   props: C09
 
 //@ spec func reqOIC(req *http.Request) bool = dirsHas(ccText(req.Header))["only-if-cached"]
 
 //@ func (*transport).handleCacheMiss
-//@   property C18 C10 C06 C11 C08
+//@   property C18 C10 C06 C11 C08 C09
 //@   requires wired(r) && req != nil
 //@   requires refs == indexRead || len(refs) == 0                                          # name: refs-is-the-index-read-in-this-exchange   props: C08
 //@   requires req.Method == "GET" && hget(req.Header, "Range") == ""                       # name: plain-get   props: C06 C03
@@ -179,6 +180,7 @@ package httpcache
 //@   ensures result0 != nil ==> (cstatus(result0.Header) == "MISS" || cstatus(result0.Header) == "BYPASS")   # name: origin-reply-marked   props: C11
 //@   ensures result0 != nil ==> len(get(result0.Header, "X-Httpcache-Status")) == 1                            # name: single-status-value   props: C11
 //@   ensures result0 != nil ==> !has(result0.Header, "X-From-Cache")                                           # name: no-legacy-flag   props: C11
+//@   ensures indexRead == old(indexRead) && lastLoaded == old(lastLoaded) && lastVerdictStale == old(lastVerdictStale)   # name: no-further-store-reads   props: C09
 
 //@ func (*transport).handleUnrecognizedMethod
 //@   property C18 C10 C07 C11
@@ -192,7 +194,7 @@ package httpcache
 //@   ensures forall x string :: old(deletedKeys)[x] ==> deletedKeys[x]                     # name: deletions-accumulate   props: C07
 
 //@ func (*transport).RoundTrip
-//@   property C18 C10 C06 C03 C11 C07 C08 C04 C20
+//@   property C18 C10 C06 C03 C11 C07 C08 C04 C20 C09
 //@   requires wired(r) && req != nil && req.URL != nil
 //@   requires r.swrTimeout > 0                                                             # name: timeout-configured   props: C20
 //@   assigns *
